@@ -418,4 +418,32 @@ def Seg.movedTo (sg : Seg) (d : Nat) (x : Pos) : Seg := { sg with s := sg.s.move
 def gap (d : Nat) (sg : Seg) (n : Node) (pos : Rat) (nodeLeft : Bool) : Rat :=
   if nodeLeft then sg.inter d pos - n.r.hi d else n.r.lo d - sg.inter d pos
 
+/-! ### the non-overlap constraints of the scan (`NodeClose::createNonOverlapConstraint`) -/
+
+/-- the `1e-7` added to every gap (the C++ double literal differs from this rational by < 1e-23) -/
+def noGapEps : Rat := 1 / 10000000
+
+/-- `left->var + g <= right->var` with `g = (length(left)+length(right))/2 + 1e-7` -/
+structure NOC where
+  left : Node
+  right : Node
+  gap : Rat
+  deriving Repr, DecidableEq, Inhabited
+
+def mkNOC (d : Nat) (l r : Node) : NOC := ⟨l, r, (l.r.len d + r.r.len d) / 2 + noGapEps⟩
+
+/-- the constraints `NodeClose::process` of `n` pushes to `cs`: with its left neighbour, then with
+    its right neighbour (neighbours in `openNodes` before `n` is erased) -/
+def nonOverlapAtClose (d : Nat) (bC : Node → Node → Bool) (nodes : List Node) (n : Node) : List NOC :=
+  let others := openNodesAtClose d bC n nodes
+  (match leftNb d n others with | some l => [mkNOC d l n] | none => []) ++
+  (match rightNb d n others with | some r => [mkNOC d n r] | none => [])
+
+/-- all non-overlap constraints of the constructor, closed form -/
+def nonOverlapClosed (d : Nat) (bC : Node → Node → Bool) (nodes : List Node) : List NOC :=
+  nodes.flatMap (nonOverlapAtClose d bC nodes)
+
+/-- the constraint holds at node positions `x` -/
+def NOC.holds (c : NOC) (x : Pos) : Prop := x c.left.id + c.gap ≤ x c.right.id
+
 end AdaptaVerif.Model.TopoCons
